@@ -444,6 +444,7 @@ pub fn run_fault(ctx: &Ctx, case: &Case, base: &std::path::Path, k: u64, sticky:
     let mut taint = Taint::default();
     let mut class = "fault-not-reached";
     let mut retried = false;
+    let mut reopened_before = false;
     for (idx, op) in case.ops.iter().enumerate() {
         let fired_before = hk::tl_fired();
         let ops_before = hk::tl_ops();
@@ -469,6 +470,9 @@ pub fn run_fault(ctx: &Ctx, case: &Case, base: &std::path::Path, k: u64, sticky:
             apply_plain(ctx, &mut st, &m, &rop)
         };
         let fired = hk::tl_fired() > fired_before;
+        if matches!(rop, ROp::Reopen) {
+            reopened_before = true;
+        }
         if st.b.is_none() {
             // a reopen that failed: nothing left to drive; the final phase opens again
             hk::tl_disarm();
@@ -494,6 +498,16 @@ pub fn run_fault(ctx: &Ctx, case: &Case, base: &std::path::Path, k: u64, sticky:
                 advance(&mut m, &rop);
             }
             Applied::Err(e) => {
+                // a request whose very first storage operation failed has written nothing: in this
+                // session every observation — the empty-position list included — must be what it was
+                // (the flags of a reopened tree are a known finding, so they are left out after a reopen)
+                if fired && k == ops_before && st.b.is_some() {
+                    let focus = Focus { leaves: true, roots: true, mark: true, flags: !reopened_before, metadata: true };
+                    if let Err(x) = compare(st.bm(), &m, focus, &[]) {
+                        hk::tl_disarm();
+                        return Err(format!("step {idx} {desc}: the first storage operation of the request failed (nothing was written, the call returned Err), yet the state changed: {x}"));
+                    }
+                }
                 // every other one-shot fault position: the caller retries the identical request once
                 // the storage works again. If that retry is acknowledged, the request counts as applied
                 // and nothing may remain of the half-done attempt (appends are not retried: a failed
@@ -808,7 +822,7 @@ impl Property for C16 {
     fn rule(&self) -> String {
         "generated (history over {set, delete, append, set_range, batch, set_metadata, flush, flush+drop+reopen}, storage configuration {cache size, flush period, mode, compression, path shape}, API surface {PmTree trait, RLN byte API}, depth 3..6/10/20). \
          Every case: no-fault run against the ideal model with observation after every step, forced final reopen + three more operations + reopen. \
-         FaultAll/FaultAt: the history is re-run on a fresh directory with the storage adapter hook failing storage operation k+1 (one-shot or sticky) for every k < K (K counted by the hook in the no-fault run; stratified to a fixed maximum when K is large): the call in which the failure fires must return Err (not Ok, not panic); at every other one-shot position the identical request is retried (appends excepted) and, if acknowledged, the rest of the history runs and the reopened tree must equal the ideal tree completely (root included); otherwise, after clearing the fault, flush, drop and reopen every position holds its acknowledged value (positions targeted by the failed request: acknowledged or requested value), leaves_set >= acknowledged mark, metadata acknowledged or requested. \
+         FaultAll/FaultAt: the history is re-run on a fresh directory with the storage adapter hook failing storage operation k+1 (one-shot or sticky) for every k < K (K counted by the hook in the no-fault run; stratified to a fixed maximum when K is large): the call in which the failure fires must return Err (not Ok, not panic), and when it was the request's first storage operation (nothing written) every in-session observation incl. the empty-position list must be unchanged; at every other one-shot position the identical request is retried (appends excepted) and, if acknowledged, the rest of the history runs and the reopened tree must equal the ideal tree completely (root included); otherwise, after clearing the fault, flush, drop and reopen every position holds its acknowledged value (positions targeted by the failed request: acknowledged or requested value), leaves_set >= acknowledged mark, metadata acknowledged or requested. \
          Crash: the history runs in a child process that abort()s inside storage operation k+1; after reopening, every position holds a value it had at some acknowledged state since the last acknowledged flush (or the interrupted request's value). \
          evaluations = observations compared; one case = one history with all its fault/crash runs. \
          non-trivial = (history with a reopen and a later write) or (a fault / crash that fired inside a range write, batch, flush or metadata write); distinct by case content".into()
